@@ -209,6 +209,30 @@ pub fn gen_c17(out: &mut Out, rng: &mut Rng, thorough: bool) {
             monitor_line(out, &line);
         }
     }
+    // acknowledgements that do not echo what was written (address or quantity / value off by
+    // one): the blocking client must report what the asynchronous one reports
+    for kind in ["tcp", "rtu"] {
+        let unit = rng.unit();
+        let (a, v) = (rng.u16() | 1, rng.u16() | 1);
+        let cases: Vec<(TypedOp, Response)> = vec![
+            (TypedOp::Wsc(a, true), Response::WriteSingleCoil(a ^ 1, true)),
+            (TypedOp::Wsc(a, true), Response::WriteSingleCoil(a, false)),
+            (TypedOp::Wsr(a, v), Response::WriteSingleRegister(a, v ^ 1)),
+            (TypedOp::Wsr(a, v), Response::WriteSingleRegister(a ^ 1, v)),
+            (TypedOp::Wmc(a, vec![true; 9]), Response::WriteMultipleCoils(a, 10)),
+            (TypedOp::Wmc(a, vec![true; 9]), Response::WriteMultipleCoils(a ^ 1, 9)),
+            (TypedOp::Wmr(a, vec![v; 3]), Response::WriteMultipleRegisters(a, 4)),
+            (TypedOp::Wmr(a, vec![v; 3]), Response::WriteMultipleRegisters(a ^ 1, 3)),
+            (TypedOp::Mwr(a, v, 0), Response::MaskWriteRegister(a, v ^ 1, 0)),
+            (TypedOp::Mwr(a, v, 0), Response::MaskWriteRegister(a, v, 1)),
+            (TypedOp::Rhr(a, 2), Response::ReadHoldingRegisters(vec![v])),
+            (TypedOp::Rc(a, 9), Response::ReadCoils(vec![true; 8])),
+        ];
+        for (op, rsp) in cases {
+            let pdu = spec::response_bytes(&rsp).unwrap();
+            monitor_line(out, &format!("sync {kind} {} | typed {} r=d{}", hex8(unit), op.tok(), hex_raw(&frame(kind, 0, unit, &pdu))));
+        }
+    }
     // the FIRST selection after connecting is a special one: the default of the framing, the
     // slave the context was connected with, a class border (a selection that a cache holds to be
     // "already in effect" must really be in effect)
